@@ -202,6 +202,8 @@ func (m Message) ClearString() string {
 			switch v := v.(type) {
 			case Message:
 				args[i] = v.ClearString()
+			case string:
+				args[i], _ = TransCtrlSeq(v, false) // a plain argument may carry formatting codes too
 			default:
 				args[i] = v
 			}
